@@ -10,7 +10,7 @@ CLAIMS = {
 CLAIMS["C05"] = {
     "text": "Exploration with deterministic window coverage: every hook window of push/clear_with/data_with (11 windows) is entered by every intruding operation (push, data_with, clear_with, is_empty) over 11 prefill shapes through directed gates; thousands of randomly-held and stress executions add undirected interleavings; an offline interval oracle over unique-id histories decides exactly-once / no-loss / no-fabrication / snapshot-completeness / is_empty truthfulness / slice order; drop-counting elements decide exactly-once destruction; the same workloads run under ASan+LSan and Miri (tree borrows, weak memory). Held = no violating history among the executions observed.",
     "note": "Windows exist only where hook points exist (atomic steps of push/clear_with/data_with); orderings weaker than x86-TSO are visible only in the Miri leg (2-3 threads, tens of ops); crossbeam-epoch is trusted.",
-    "technique": "runtime monitoring: offline interval/exactly-once checker over stamped unique-value histories; directed gate + random-hold hook schedules; ASan/LSan and Miri legs",
+    "technique": "runtime monitoring: offline interval/exactly-once checker over stamped unique-value histories; directed gate + random-hold hook schedules; ASan/LSan, TSan, Miri and valgrind-memcheck legs",
 }
 CLAIMS["C13"] = {
     "text": "Exploration: tens of thousands (quick) to millions (thorough) of operations through randomly composed Prefix/Filter/Router/Fanout trees; every delivery to every leaf recorder (name, labels, metadata, unit, description, handle updates incl. record_many) is compared with a reference implementation of the four layer semantics and their composition. Held = no mismatch in the operations observed.",
@@ -20,7 +20,7 @@ CLAIMS["C13"] = {
 CLAIMS["C01"] = {
     "text": "Exploration: thousands (quick) to hundreds of thousands (thorough) of generated scope programs per run — arbitrary nesting of with_local_recorder, guards dropped in any order, leaked guards, guards escaping closures, panics unwinding through scopes, 1-4 threads, with and without a process-global recorder — each emission (66 macro shapes) checked against a per-thread scope model by logging recorder doubles; the same programs with really-freed recorders run under ASan and Miri so a dispatch after the borrow ended is a reported memory error. Held = no emission observed at a wrong/ended recorder or with altered fields, apart from the listed known finding.",
     "note": "Scope model: innermost live install wins, else global, else nothing observable. After mem::forget only the 'never after borrow ended' clause is judged. The no-op recorder is observed only as absence of deliveries.",
-    "technique": "runtime monitoring: logging recorder doubles + per-thread scope reference model over generated programs; ASan/Miri legs with real frees",
+    "technique": "runtime monitoring: logging recorder doubles + per-thread scope reference model over generated programs; ASan/Miri/valgrind-memcheck legs with real frees",
 }
 CLAIMS["C04"] = {
     "text": "Exploration: multi-threaded runs over clones of one handle check exact conservation (counter sum mod 2^64, gauge exact sums), monotonicity and the max-absolute bound; thousands of short concurrent gauge histories are checked for linearizability against a sequential register-with-add model; record/record_many delivery counts and IntoF64 conversions are checked through logging doubles for every value class; Miri re-runs small versions. Held = no lost/duplicated update or non-linearizable history observed.",
@@ -40,7 +40,7 @@ CLAIMS["C20"] = {
 CLAIMS["C14"] = {
     "text": "Exploration including a complete small-scope sweep: all op sequences of length <= 3 over 9 operations x 30 constructor shapes x {str, slices of drop-counting elements} (~49k sequences) plus random long sequences; after every step the content, every Arc strong count and the number of live elements are compared with a reference model; the sweep and random sequences are repeated under ASan+LSan (double free, use after free, leaked buffers) and a reduced sweep under Miri with Stacked Borrows and the leak checker (invalid from_raw_parts, dangling reads, leaks).",
     "note": "The cfg-exported Cow type is the one behind SharedString / label slices. Miri's sweep is reduced (length <= 2, a third of the shapes at length 2) for time.",
-    "technique": "runtime monitoring: reference ownership model (content, refcounts, live destructors) checked after every operation of enumerated and random sequences; ASan/LSan and Miri legs",
+    "technique": "runtime monitoring: reference ownership model (content, refcounts, live destructors) checked after every operation of enumerated and random sequences; ASan/LSan, Miri and valgrind-memcheck legs",
 }
 CLAIMS["C06"] = {
     "text": "Exploration: sequential histories against a reference map with identity-carrying storage doubles (one storage per live (kind,key), no sharing between keys/kinds, truthful delete/retain/clear/listing) under 16, 4 and 1 registry shards; racing creators/getters/deleters with the read-unlock/write-lock window forced by a gate, each per-key sub-history checked for linearizability as a single atomic map entry; Miri re-runs small races. Held = no divergence from the map model and no non-linearizable key history observed.",
